@@ -411,3 +411,30 @@ def root_local(body, operand, depth=12):
             return l
         l = p2["local"]
     return l
+
+
+ADAPTORS = r"^std::iter::Iterator::(filter|map|flat_map|filter_map|flatten|enumerate|take|skip|take_while|skip_while|map_while|step_by|rev|chain|zip|peekable|fuse|inspect|cloned|copied|scan|dedup\w*)$|^std::iter::IntoIterator::into_iter$"
+
+
+def pipeline_of(body, operand):
+    """Iterator pipeline that produces `operand`, walked backwards through adaptor calls:
+    returns (source, stages) where source is the origin_def result of the innermost receiver and stages is
+    [(adaptor name, block, term, closure Body | None)] from the source outwards."""
+    stages = []
+    o = operand
+    for _ in range(16):
+        od = body.origin_def(o)
+        if not (od and od[0] == "def" and od[1]["kind"] == "call"):
+            return od, list(reversed(stages))
+        t = od[1]["term"]
+        if not re.search(ADAPTORS, t.get("callee", "")):
+            return od, list(reversed(stages))
+        clo = None
+        if len(t["args"]) > 1:
+            cd = body.origin_def(t["args"][1])
+            if cd and cd[0] == "def" and cd[1]["kind"] == "assign" and cd[1]["stmt"]["rv"].get("closure"):
+                cb = body.facts.find_bodies("^" + re.escape(cd[1]["stmt"]["rv"]["closure"]) + "$", include_absorbed=True)
+                clo = (cb[0], cd[1]["stmt"]) if cb else None
+        stages.append((t["callee"].split("::")[-1], od[1]["block"], t, clo))
+        o = t["args"][0]
+    return None, list(reversed(stages))
